@@ -1,0 +1,34 @@
+//go:build verif
+
+package websocket
+
+// Formerly trusted contracts brought under check (extend + untrusted).
+
+// WriteClose (C59): the control frame requested from the frame-writer factory is a CLOSE frame and
+// its payload is exactly the two bytes of the status code in network byte order.
+//
+//@ extend (*hybiFrameHandler).WriteClose(handler, status) (err)
+//@   untrusted
+//@   partial nopanic, pre
+//@   requires handler != nil && handler.conn != nil
+//@   ghost factory += 1 at call NewFrameWriter
+//@   ghost writes += 1 at call Write
+//@   ghost closes += 1 at call Close
+//@   assert at call NewFrameWriter: $payloadType == CloseFrame
+//@   assert at call Write: len($msg) == 2 && $msg[0] == byte(status>>8) && $msg[1] == byte(status)
+//@   ensures ghost(factory) == 1 && ghost(writes) <= 1 && ghost(writes) == ghost(closes)
+//@   noframe
+
+// WritePong (C59): the control frame is a PONG frame whose payload is the caller's message.
+//
+//@ extend (*hybiFrameHandler).WritePong(handler, msg) (n, err)
+//@   untrusted
+//@   partial nopanic, pre
+//@   requires handler != nil && handler.conn != nil
+//@   ghost factory += 1 at call NewFrameWriter
+//@   ghost writes += 1 at call Write
+//@   ghost closes += 1 at call Close
+//@   assert at call NewFrameWriter: $payloadType == PongFrame
+//@   assert at call Write: samebase($msg, msg) && startoff($msg) == startoff(msg) && len($msg) == len(msg)
+//@   ensures ghost(factory) == 1 && ghost(writes) <= 1 && ghost(writes) == ghost(closes)
+//@   noframe
